@@ -114,3 +114,29 @@ Example C08_get_lines_applies :
   get_lines (state_init [9; 9; 102; 10; 32; 32; 32; 103; 10] env0 []) 0 2 2 false
   = Ok [32; 32; 9; 102; 10; 32; 103].
 Proof. vm_compute. reflexivity. Qed.
+
+(* ---- ordered-list start / info / markup equal what was written -------------------------------------------------
+   For every ordered marker  digits delimiter blanks  (1-9 digits, '.' or ')', 1-4 spaces) in front of a line s, nested in
+   any list cs of containers: parse(prefix(cs ++ [marker]) s LF) carries, at the place of that list, ordered_list_open with
+   markup = the delimiter written and start = the number written (no start attribute when it is 1), and list_item_open
+   with info = the digits written, character for character (leading zeros kept), and markup = the delimiter. *)
+From MD Require Import Model.Pipeline Model.Inline Model.Core Lemmas.ParaLine Lemmas.NestLine.
+Theorem C08_ordered_marker_recorded :
+  forall cfg rf cf lt s, line_ok s -> mem_z 13 s = false -> mem_z 0 s = false ->
+  forall RA RB RC RD, c_rules (p_block cfg) = RA ++ nm_blockquote :: RB ++ nm_list :: RC ++ nm_paragraph :: RD ->
+    Forall (fun n => n = nm_table \/ n = nm_code \/ n = nm_fence) RA ->
+    Forall (fun n => n = nm_table \/ n = nm_code \/ n = nm_fence \/ n = nm_hr) RB ->
+    Forall (fun n => str_eqb n nm_paragraph = false) RC ->
+    p_core cfg = [n_normalize; n_block; n_inline; n_text_join] ->
+  forall d0 ds dl k, okc (CO d0 ds dl k) -> 2 < c_maxNesting (p_block cfg) ->
+  forall env,
+    parse cfg rf cf lt (((d0 :: ds) ++ dl :: repeat 32 k) ++ s ++ [10]) env
+    = (do toks <- inline_parse (p_inline cfg) rf cf lt s env [];
+       Ok (ol_open_at dl (int_of_digits (d0 :: ds)) 0 :: li_open_g true (d0 :: ds) dl 1 :: wrapc s [] 2 true (join_children toks)
+           ++ [li_close_at dl 1; ol_close_at dl 0], env))
+    /\ tinfo (li_open_g true (d0 :: ds) dl 1) = d0 :: ds /\ tmarkup (li_open_g true (d0 :: ds) dl 1) = [dl]
+    /\ tmarkup (ol_open_at dl (int_of_digits (d0 :: ds)) 0) = [dl]
+    /\ (int_of_digits (d0 :: ds) <> 1 -> tattrs (ol_open_at dl (int_of_digits (d0 :: ds)) 0) = [(s_start, AInt (int_of_digits (d0 :: ds)))])
+    /\ (int_of_digits (d0 :: ds) = 1 -> tattrs (ol_open_at dl (int_of_digits (d0 :: ds)) 0) = []).
+Proof. exact ordered_marker_recorded. Qed.
+Print Assumptions C08_ordered_marker_recorded.
